@@ -544,7 +544,9 @@ func ParseDSL(data string) (*OpenFgaDslListener, *OpenFgaDslErrorListener) {
 		cleanedLines = append(cleanedLines, strings.Join(segments, "\r"))
 	}
 
-	cleanedData := strings.TrimRight(strings.Join(cleanedLines, "\n"), "\n")
+	// the line breaks at the end go together with the white space in front of them (for the lexer that white
+	// space is part of the line break: left behind, it would stand in front of the end of the input on its own)
+	cleanedData := strings.TrimRight(strings.Join(cleanedLines, "\n"), "\n \t\f")
 	inputStream := antlr.NewInputStream(cleanedData)
 	errorListener := newOpenFgaDslErrorListener()
 
